@@ -2325,6 +2325,44 @@ class Generator:
         return {'op': 'srv_state', 'name': name, 'state': 'frozen',
                 'apps': None}
 
+    def g_trait_lost_then_place(self, world):
+        """A loaded server comes back reporting one trait fewer (nothing
+        else changes); then instances that require exactly that trait
+        arrive."""
+        cands = []
+        for name in self._servers(world):
+            data = world._zk_obj(z.path.server(name)) or {}
+            if data.get('parent') and data.get('traits') and \
+                    world.zk.nodes.get(z.path.server_presence(name)):
+                cands.append((name, data))
+        if not cands:
+            return None
+        name, old = self.rng.choice(cands)
+        traits = list(old['traits'])
+        lost = self.rng.choice(traits)
+        traits.remove(lost)
+        proid = self.rng.choice(self.config['proids'])
+        manifest = {'memory': '256M', 'cpu': '10%', 'disk': '256M',
+                    'affinity': '%s.job' % proid, 'traits': [lost]}
+        limits = self.config['aff_limits'].get(manifest['affinity'])
+        if limits:
+            manifest['affinity_limits'] = limits
+        follow = [{'op': 'drain'}, {'op': 'master_cycle'}]
+        if self.rng.random() < 0.5:
+            # the node restarted: its presence goes and comes back
+            follow = [{'op': 'presence_down', 'name': name}, {'op': 'drain'},
+                      {'op': 'presence_up', 'name': name}] + follow
+        follow.extend([
+            {'op': 'app_create', 'app_id': '%s.job' % proid,
+             'manifest': manifest, 'count': self.rng.randint(2, 5)},
+            {'op': 'drain'}, {'op': 'master_cycle'}])
+        self.follow.extend(follow)
+        return {'op': 'srv_set', 'name': name, 'parent': old['parent'],
+                'partition': old.get('partition') or '_default',
+                'memory': old.get('memory'), 'cpu': old.get('cpu'),
+                'disk': old.get('disk'), 'traits': traits,
+                'up_since': old.get('up_since')}
+
     def g_stale_record_failover(self, world):
         """C11: an instance is deleted and the master fails over before it
         hears of it: the stale record is dropped, every other recorded
@@ -2724,6 +2762,7 @@ OP_WEIGHTS = [
     ('delete_then_apps_event', 3), ('move_partition', 3),
     ('lease_squeeze_failover', 3), ('flap_then_place', 5),
     ('resize_mixed', 3), ('frozen_then_presence_lost', 3),
+    ('trait_lost_then_place', 3),
 ]
 
 
